@@ -362,3 +362,52 @@ def bloc_coordinates(ctx: Ctx) -> None:
                                 cont_ok = False
         (ctx.ok if good and cont_ok else ctx.bad)(R, f, f.node, 't_start advances by the block width on every iteration' if good and cont_ok else
                                                   'the running column offset t_start is not advanced by the block width on every path through the loop', key=f'{f.name}:offset')
+
+
+def nomap_rejects_negative(ctx: Ctx) -> None:
+    R = 'I.nomap-negative-label-raises'
+    ctx.rule(R, 'sibling agreement of the two label-to-position routes of Index._loc_to_iloc: with a map an absent label raises (KeyError / LocInvalid); on the map-less '
+             'route (auto-integer index: labels are the positions 0..n-1) the key is returned as a position, so a label above n-1 fails in NumPy, but a *negative* '
+             'integer would be read from the end — each arm of that route that hands back integer labels (integer array, slice bounds, element, list) raises '
+             'under a `< 0` test first', floor=4)
+    prog = ctx.prog
+    f = prog.func('index.Index._loc_to_iloc')
+    branch = None
+    for n in walk_local(f.node):
+        if isinstance(n, ast.If) and '_map is None' in norm(n.test) and 'offset is None' in norm(n.test):
+            branch = n
+            break
+    ctx.require(branch is not None, 'map-less, offset-less branch of Index._loc_to_iloc')
+
+    def guards_negative(stmts: tp.Sequence[ast.stmt]) -> bool:
+        for s in stmts:
+            for i in ast.walk(s):
+                if isinstance(i, ast.If) and any(isinstance(c, ast.Compare) and len(c.ops) == 1 and
+                                                 ((isinstance(c.ops[0], ast.Lt) and isinstance(c.comparators[0], ast.Constant) and c.comparators[0].value == 0) or
+                                                  (isinstance(c.ops[0], ast.Gt) and isinstance(c.left, ast.Constant) and c.left.value == 0))
+                                                 for c in ast.walk(i.test)) \
+                        and any(isinstance(x, ast.Raise) for b in i.body for x in ast.walk(b)):
+                    return True
+        return False
+    # the class-dispatch chain
+    arms: tp.List[tp.Tuple[str, tp.List[ast.stmt]]] = []
+    node: tp.Optional[ast.stmt] = branch.body[0] if branch.body else None
+    for s in branch.body:
+        cur: tp.Optional[ast.stmt] = s
+        while isinstance(cur, ast.If):
+            arms.append((norm(cur.test), cur.body))
+            cur = cur.orelse[0] if len(cur.orelse) == 1 else None
+    wanted = {'ndarray': 'integer array', 'slice': 'slice bounds', 'INT_TYPES': 'element', 'list': 'list of labels'}
+    n = 0
+    for marker, what in wanted.items():
+        arm = [(t, b) for t, b in arms if marker in t]
+        key = f'Index._loc_to_iloc:no-map:{what}'
+        n += 1
+        if not arm:
+            ctx.bad(R, f, branch, f'the map-less route has no arm for the {what}: such a key is returned as it is, and a negative integer selects from the end', key=key)
+        elif guards_negative(arm[0][1]):
+            ctx.ok(R, f, arm[0][1][0], f'{what}: a negative integer raises', key=key)
+        else:
+            ctx.bad(R, f, arm[0][1][0], f'the {what} arm of the map-less route returns the key without rejecting negative integers: `-1` is not a label of an '
+                    'auto-integer index but selects the last position', key=key)
+    ctx.require(n >= 4, 'arms of the map-less route')
